@@ -816,11 +816,12 @@ def mark_positions(w, sc):
 def weave_parse_prefix(w, sc):
     """`parse`: keep everything up to and including the [tag:error_check] block; cut the rest (R16); state what
     holds at the cut as an assertion."""
+    unchain_let(w)
     i = w.find(r"^    let mut (\w+) = Cache::new\(\);$")
     cache = re.match(r"^    let mut (\w+) = ", w.lines[i]).group(1)
     w.rewrite_lines("R14-cache", i, i, [f"    let mut {cache} = cache_new();"], note="HashMap::new() -> stub: an empty memo table")
-    i = w.find(r"^    let \((\w+), (\w+), _\) = parse_term\(&mut %s, (\w+), 0\);$" % cache)
-    term, nxt, toks = re.match(r"^    let \((\w+), (\w+), _\) = parse_term\(&mut \w+, (\w+), 0\);$", w.lines[i]).groups()
+    i = w.find(r"^    let \((\w+), (?:mut )?(\w+), _\) = parse_term\(&mut %s, (\w+), 0\);$" % cache)
+    term, nxt, toks = re.match(r"^    let \((\w+), (?:mut )?(\w+), _\) = parse_term\(&mut \w+, (\w+), 0\);$", w.lines[i]).groups()
     # the rejecting exit
     i = w.find(r"^        return Err\(\w+$")
     j = statement_end(w, i)
@@ -839,8 +840,72 @@ def weave_parse_prefix(w, sc):
     w.contract(sc["parse_fn.contract"], ret="r")
 
 
+def split_top_level_and(cond):
+    """Split `a && b && c` at depth 0 (parentheses, brackets, braces)."""
+    parts, depth, cur, i = [], 0, "", 0
+    while i < len(cond):
+        ch = cond[i]
+        if ch in "([{":
+            depth += 1
+        elif ch in ")]}":
+            depth -= 1
+        if depth == 0 and cond.startswith(" && ", i):
+            parts.append(cur)
+            cur = ""
+            i += 4
+            continue
+        cur += ch
+        i += 1
+    parts.append(cur)
+    return [p.strip() for p in parts]
+
+
+def unchain_let(w):
+    """R17: `if A && let P = E { B }` (no else) -> `if A { if let P = E { B } }` -- Verus does not support let chains.
+    Handles rustfmt's one-line and one-condition-per-line layouts."""
+    i = 0
+    while i < len(w.lines):
+        l = w.lines[i]
+        m = re.match(r"^(\s*)if (.*)$", l)
+        if not m:
+            i += 1
+            continue
+        ind = m.group(1)
+        if l.rstrip().endswith("{"):
+            conds = split_top_level_and(m.group(2)[:-1].rstrip())
+            open_line = i
+        else:
+            # multi-line header: continuation lines start with `&& `, then a line that is just `{`
+            conds = [m.group(2).strip()]
+            j = i + 1
+            while j < len(w.lines) and re.match(r"^\s+&& ", w.lines[j]):
+                conds.append(w.lines[j].strip()[3:].strip())
+                j += 1
+            if j >= len(w.lines) or w.lines[j] != ind + "{":
+                i += 1
+                continue
+            open_line = j
+        if len(conds) < 2 or not any(c.startswith("let ") for c in conds[1:]):
+            i += 1
+            continue
+        # closing brace of the block: first later line that is exactly ind + "}"
+        close = None
+        for k in range(open_line + 1, len(w.lines)):
+            if w.lines[k].startswith(ind + "}"):
+                close = k
+                break
+        if close is None or w.lines[close] != ind + "}":
+            raise LostAnchor(f"{w._where(i)}: let chain with an else branch (or unexpected layout) cannot be un-chained")
+        body = w.lines[open_line + 1 : close]
+        new = [ind + "if " + conds[0] + " {"] + [ind + "if " + c + " {" for c in conds[1:]] + body + [ind + "}"] * len(conds)
+        w.rewrite_lines("R17-let-chain", i, close, new, note="let chain without else -> nested ifs (same evaluation order and short-circuiting)")
+        i += 1
+    return
+
+
 def weave_parse_fn(w, nt, sc):
     strip_clippy(w)
+    unchain_let(w)
     drop_format_args(w)
     if w.count(r"Rc::new\(move \|source_path, source_contents\| \{$"):
         i = w.find(r"^\s*errors\.push\(Rc::new\(move \|source_path, source_contents\| \{$")
@@ -848,18 +913,17 @@ def weave_parse_fn(w, nt, sc):
         ind = re.match(r"^\s*", w.lines[i]).group(0)
         w.rewrite_lines("R15-error-closure", i, j, [ind + "errors.push(opaque_error_factory());"], note="closure that formats the 'parenthesis was never closed' message (format!/listing/throw) -> opaque ErrorFactory value; only the fact that one is pushed matters")
     if w.name == "parse_group":
-        # names used by the hint are taken from the code
-        i = w.find(r"^\s*let \((\w+), (\w+), (\w+)\) = try_eval!\(.*\bparse_term\(")
+        # the name of the inner term is taken from the code; the hint is guarded by the lemma's own preconditions, so
+        # it can never fail itself -- a defect shows up as the function's postcondition
+        i = w.find(r"^\s*let \((\w+), (\w+), (\w+)\) = try_eval!\(.*\bparse_\w+\(")
         inner = re.match(r"^\s*let \((\w+), ", w.lines[i]).group(1)
-        k = w.find(r"^\s*let mut (\w+) = %s\.errors\.clone\(\);$" % inner)
-        errs = re.match(r"^\s*let mut (\w+) = ", w.lines[k]).group(1)
         last = [n for n, l in enumerate(w.lines) if re.match(r"^    cache_return!\($", l)]
         if len(last) != 1:
             raise LostAnchor(f"{w.src.rel} fn parse_group: expected one final cache_return!(")
-        w.lines[last[0]:last[0]] = sc["parse_group.hint"].replace("$TERM", inner).replace("$ERRS", errs).rstrip("\n").split("\n")
+        w.lines[last[0]:last[0]] = sc["parse_group.hint"].replace("$TERM", inner).rstrip("\n").split("\n")
         w.log["annotations"].append({"fn": w.name, "kind": "proof-before", "anchor": "final cache_return!"})
     mark_positions(w, sc)
-    w.contract(sc["parse.contract"].replace("$NT", nt), ret="r", attrs="#[verifier::exec_allows_no_decreases_clause]")
+    w.contract(sc["parse.contract"].replace("$NT", nt), ret="r")
 
 
 def build_packrat(repo, external=(), canary=None, with_witness=True, boost=False):
